@@ -65,6 +65,7 @@ type decoder struct {
 	skip    uint64 // payload bytes of cur still to come
 	cur     Msg
 	msgs    []Msg
+	opened  map[uint64]bool // identifiers of completely written open messages
 	nonBeat int    // number of non-heartbeat messages
 	err     string // first framing error; decoding stops there
 	bytes   uint64
@@ -125,6 +126,12 @@ func (d *decoder) emit(m Msg) {
 	d.msgs = append(d.msgs, m)
 	if m.Kind != kHeartbeat {
 		d.nonBeat++
+	}
+	if m.Kind == kOpen {
+		if d.opened == nil {
+			d.opened = map[uint64]bool{}
+		}
+		d.opened[m.ID] = true
 	}
 	d.hdr = d.hdr[:0]
 }
